@@ -114,3 +114,24 @@ func (st *StateDB) VerifC09PeekLive(addr common.Address) bool {
 	obj, ok := st.validatorObjects.Load(addr)
 	return ok && obj != nil
 }
+
+// VerifC09StorageCached reports whether every slot of the live object at addr that has a dirty or
+// pending value also has its committed value cached in originStorage (the model merges
+// originStorage with the storage trie, which is only sound under this invariant of SetState).
+func (st *StateDB) VerifC09StorageCached(addr common.Address) bool {
+	obj := st.stateObjects[addr]
+	if obj == nil {
+		return true
+	}
+	for k := range obj.dirtyStorage {
+		if _, ok := obj.originStorage[k]; !ok {
+			return false
+		}
+	}
+	for k := range obj.pendingStorage {
+		if _, ok := obj.originStorage[k]; !ok {
+			return false
+		}
+	}
+	return true
+}
